@@ -599,6 +599,7 @@ func runCase(c Case, drv *lib.Drv, res *lib.Result, work string, n int) {
 	}
 	for _, op := range c.Pre {
 		w.rawStep(drv, op, "pre")
+		res.Count("", false)
 	}
 	for _, op := range c.Raw {
 		w.rawStep(drv, op, "rawfs")
@@ -743,7 +744,7 @@ func main() {
 		return
 	}
 	fl := lib.ParseFlags()
-	res := lib.NewResult("a history is non-trivial if a Write in it is killed strictly inside its file-system steps (0 < done < all) or two Writes of it share a file name; raw file-system operation cases count as evaluations only")
+	res := lib.NewResult("unit of evaluations = one step applied to the implementation (a Write/crash/restart event, a pre-planted or raw os.* operation); traces_validated_against_impl = those steps whose result (err, whole tree, reader's view, version ids) was compared with the model and agreed (<= evaluations; steps the model declares UNMODELLED are evaluated but not compared). distinct_nontrivial counts distinct HISTORIES: non-trivial if a Write in it is killed strictly inside its file-system steps (0 < done < all) or two Writes of it share a file name; raw-operation cases are never counted as non-trivial. Complete enumerations (every hook point of every Write of the family's histories): crash1, crash2, kill1, kill2 (quick: every 2nd point pair), prior, prior-kill (quick: every 2nd point), nocrash, foreign, badname, reltarget, restart, corpus; seeded random samples: random, rawfs, reader (real scheduling) — hence exhaustive=false for the run as a whole")
 	work := fl.Work
 	if work == "" {
 		work, _ = os.MkdirTemp("", "c18")
@@ -799,7 +800,7 @@ func main() {
 	for _, c := range generate(fl.Tier, fl.Search, rng) {
 		runOne(c)
 	}
-	res.Exhaustive = true
-	res.Note("exhaustive part: every hook point of every Write in histories of 1..3 (quick) / 1..4 (thorough) Writes, single and double crashes; random part seeded")
+	res.Exhaustive = false
+	res.Note("complete-enumeration part: every hook point of every Write in histories of 1..3 (quick) / 1..4 (thorough) Writes, single and double crashes; random part seeded")
 	res.Write(fl.Out)
 }
